@@ -4,6 +4,7 @@ import (
 	"fmt"
 	"math/bits"
 	"runtime/debug"
+	"sync/atomic"
 
 	"github.com/golang/protobuf/proto"
 	"github.com/openacid/slim/encode"
@@ -40,9 +41,18 @@ func buildTrie(enc encode.Encoder, keys []string, vals interface{}, opt trie.Opt
 }
 
 // loadTrie unmarshals stream into a new instance created with enc.
+// The receiver is created with a different option spelling every time (all 81
+// nil/false/true combinations in turn): what a stream holds does not depend on
+// the options of the empty instance it is loaded into.
 func loadTrie(enc encode.Encoder, stream []byte) (st *trie.SlimTrie, err error, pv interface{}, stack string) {
+	code := int(atomic.AddInt32(&receiverOptCounter, 1))
 	pv, stack = try(func() {
-		st, err = trie.NewSlimTrie(enc, nil, nil)
+		if code%3 == 0 {
+			st, err = trie.NewSlimTrie(enc, nil, nil)
+		} else {
+			opt, _ := triOpt(code / 3 % 81)
+			st, err = trie.NewSlimTrie(enc, nil, nil, opt)
+		}
 		if err != nil {
 			return
 		}
@@ -50,6 +60,8 @@ func loadTrie(enc encode.Encoder, stream []byte) (st *trie.SlimTrie, err error, 
 	})
 	return
 }
+
+var receiverOptCounter int32
 
 // loadTrieProto loads through proto.Unmarshal into an instance that previously
 // held other data.
